@@ -180,7 +180,7 @@ def run(rep, tier, seed, deep=False):
     drv = vlib.Driver()
     rng = vlib.rng_for(seed, "c11")
     quick = tier == "quick"
-    n_states, k = (30, 5) if quick else (400, 12)
+    n_states, k = (30, 5) if quick else (160, 10)
     if deep:
         n_states *= 3
     rep.rule = ("%d states per backend %s (reached by random histories) x one call per method with each path argument replaced by %d "
@@ -235,8 +235,8 @@ def run(rep, tier, seed, deep=False):
                                               kind, name, ref[0][1:], r[0][1:], what, ref[1], r[1], [e[:2] for e in snap][:8]),
                                           found_input=True, signature="C11/%s/%s/%s" % (kind, name, what))
                             break
-        same_object_phase(rep, rng, KINDS + ["cachedir-os", "mount-nested", "multi2"], 8 if quick else 150, k)
-        same_object_phase(rep, rng, ["cachedir-mem", "mount", "mount-nested"], 60 if quick else 600, k)
+        same_object_phase(rep, rng, KINDS + ["cachedir-os", "mount-nested", "multi2"], 8 if quick else 60, k)
+        same_object_phase(rep, rng, ["cachedir-mem", "mount", "mount-nested"], 60 if quick else 400, k)
         rep.sample({"clean": "a/b", "spellings": spellings(rng, "a/b", [("D", "a"), ("F", "a/b", b"")], 8)})
     finally:
         H.cleanup_scratch()
